@@ -14,7 +14,7 @@ import numpy as np
 
 from ..index import AnchorMissing, Unrecognised
 from ..absval import Evaluator, Obj, MethodRunner, EvalRaised
-from ..astutil import (u, inline_locals, body_walk, local_env, always_terminates, always_raises, func_calls, walk_local, root_name,
+from ..astutil import (linear_body, u, inline_locals, body_walk, local_env, always_terminates, always_raises, func_calls, walk_local, root_name,
                        statements, raise_name)
 from .. import sym
 
@@ -138,7 +138,7 @@ def r1b_encode_structure(ctx):
     for r in rets:
         c = sym.canon(r.value, env)
         ctx.ob(f.where, "_encode returns self._lookup[<argument>]", c == f"self._lookup[{p}]", f"returns {c}")
-    ifs = [n for n in f.node.body if isinstance(n, ast.If)]
+    ifs = [n for n in linear_body(f.node) if isinstance(n, ast.If)]
     guard = [i for i in ifs if "_alphabet_size" in u(i.test) or "255" in u(i.test)]
     ctx.need(guard, "invalid-code test not found in _encode")
     for g in guard:
@@ -192,14 +192,16 @@ def r2_retarget_guard(ctx):
                    ok, f"upper bound normal form: {bound}", key=f"C06-R2|bound|{root_name(sd.value)}")
         ctx.ob(f.where, "the two compared prefixes are of the source and of the target alphabet", roots == {s_name, t_name}, str(sorted(map(str, roots))))
         # inside the guard: raise when max code not < target alphabet length, then re-wrap raw codes with target encoding
-        inner_raise = [n for n in g.body if isinstance(n, ast.If) and always_raises(n.body)]
-        ok = False
-        for ir in inner_raise:
-            t = sym.canon(ir.test, env)
-            if t in (f"not(({s_name}.raw().max())<(len({t_name}.get_alphabet())))", f"(len({t_name}.get_alphabet()))<=({s_name}.raw().max())"):
-                ok = True
-        ctx.ob(f.where, "codes beyond the target alphabet raise before re-wrapping", ok,
-               "; ".join(sym.canon(n.test, env) for n in inner_raise) or "no raising test found")
+        # the raising side of the range test (either side may be written under the test)
+        raise_conds = []
+        for n in walk_local(g):
+            if isinstance(n, ast.If) and n is not g:
+                if always_raises(n.body):
+                    raise_conds.append(sym.canon(n.test, env))
+                if n.orelse and always_raises(n.orelse):
+                    raise_conds.append(f"not({sym.canon(n.test, env)})")
+        ok = any(t in (f"not(({s_name}.raw().max())<(len({t_name}.get_alphabet())))", f"(len({t_name}.get_alphabet()))<=({s_name}.raw().max())") for t in raise_conds)
+        ctx.ob(f.where, "codes beyond the target alphabet raise before re-wrapping", ok, "; ".join(raise_conds) or "no raising test found")
         for r in [n for n in walk_local(g) if isinstance(n, ast.Return)]:
             c = sym.canon(r.value, env)
             ok = c in (f"{s_name}.__class__({s_name}.raw(), {t_name})",
@@ -301,25 +303,36 @@ def r4_shape_plumbing(ctx):
     # encode dispatch reaches _encode on every branch
     f = ix.func(EA_MOD, "OneToOneEncoding.encode")
     p = f.params[1]
-    chain = [n for n in f.node.body if isinstance(n, ast.If) and "isinstance" in u(n.test) and "str" in u(n.test)]
-    ctx.need(chain, "type dispatch chain not found in OneToOneEncoding.encode")
-    n = chain[0]
-    branches = []
-    while True:
-        branches.append((u(n.test), n.body))
-        if len(n.orelse) == 1 and isinstance(n.orelse[0], ast.If):
-            n = n.orelse[0]
-        else:
-            branches.append(("else", n.orelse))
-            break
+    from ..cfg import CFG
+    from ..pend import edge_facts
+    g = CFG(f.node)
     want = {"str": "_encode_string", "list": "_encode_list_of_strings", "RaggedArray": "_ragged_array_as_encoded_array", "np.ndarray": "_encode"}
+    disp = {}
+    for n in g.nodes:
+        if n.kind != "stmt":
+            continue
+        for x in walk_local(n.ast):
+            if isinstance(x, ast.Call) and u(x.func).startswith("self._") and x.args and u(x.args[0]) == p:
+                facts = set()
+                for t, lab in g.guards(n):
+                    if t.kind == "test":
+                        facts |= edge_facts(t, lab)
+                for ty in want:
+                    if (f"isinstance({p}, {ty})", True) in facts:
+                        disp.setdefault(ty, set()).add(u(x.func))
+    ctx.need(disp, "type dispatch not found in OneToOneEncoding.encode")
     for ty, meth in want.items():
-        b = [body for t, body in branches if t == f"isinstance({p}, {ty})"]
-        ok = bool(b) and any(isinstance(x, ast.Call) and u(x.func) == f"self.{meth}" and x.args and u(x.args[0]) == p
-                             for st in b[0] for x in ast.walk(st))
-        ctx.ob(f.where, f"encode dispatch: {ty} input goes through self.{meth}(data)", ok, "")
-    els = [body for t, body in branches if t == "else"]
-    ctx.ob(f.where, "encode dispatch: unsupported input type raises", bool(els) and always_terminates(els[0]) and not any(isinstance(x, ast.Return) for st in els[0] for x in ast.walk(st)), "")
+        ctx.ob(f.where, f"encode dispatch: {ty} input goes through self.{meth}(data)", f"self.{meth}" in disp.get(ty, set()), str(sorted(disp.get(ty, set()))))
+    fails = [n for n in g.nodes if n.kind == "stmt" and (isinstance(n.ast, ast.Raise) or (isinstance(n.ast, ast.Assert) and isinstance(n.ast.test, ast.Constant) and n.ast.test.value is False))]
+    ok = False
+    for n in fails:
+        facts = set()
+        for t, lab in g.guards(n):
+            if t.kind == "test":
+                facts |= edge_facts(t, lab)
+        if all((f"isinstance({p}, {ty})", False) in facts for ty in want):
+            ok = True
+    ctx.ob(f.where, "encode dispatch: unsupported input type raises", ok, "")
     # _encode_string: ascii bytes of the string
     f = ix.func(EA_MOD, "OneToOneEncoding._encode_string")
     env = local_env(f.node)
@@ -369,8 +382,19 @@ def r6_encoding_identity(ctx):
            "bytes is the same for permuted alphabets and cannot decide it", ok, u(v), key="C06-R6|eq-ordered")
     inits = [e for e in body_walk(eq.node) if isinstance(e, ast.Expr) and isinstance(e.value, ast.Call) and u(e.value.func).endswith("._initialize")]
     ctx.ob(eq.where, "both encodings are initialised before their tables are compared", {u(e.value.func) for e in inits} >= {"self._initialize", f"{o}._initialize"}, "", key="C06-R6|eq-init")
-    isn = [t for t in body_walk(eq.node) if isinstance(t, ast.If) and sym.canon(t.test) == f"not(isinstance({o}, AlphabetEncoding))"]
-    ctx.ob(eq.where, "an alphabet encoding never equals a non-alphabet encoding", bool(isn), "", key="C06-R6|eq-type")
+    from ..cfg import CFG as _CFG
+    from ..pend import edge_facts as _ef
+    ge = _CFG(eq.node)
+    okt = False
+    for n in ge.nodes:
+        if n.kind == "stmt" and isinstance(n.ast, ast.Return) and isinstance(n.ast.value, ast.Constant) and n.ast.value.value is False:
+            facts = set()
+            for t, lab in ge.guards(n):
+                if t.kind == "test":
+                    facts |= _ef(t, lab)
+            if (f"isinstance({o}, AlphabetEncoding)", False) in facts:
+                okt = True
+    ctx.ob(eq.where, "an alphabet encoding never equals a non-alphabet encoding", okt, "", key="C06-R6|eq-type")
     f = ix.func(EA_MOD, "_list_of_encoded_arrays_as_encoded_ragged_array")
     lst = f.params[0]
     env = local_env(f.node)
@@ -399,7 +423,7 @@ def r6_encoding_identity(ctx):
             elif isinstance(st, ast.If):
                 yield from seq_env(st.body, e)
                 yield from seq_env(st.orelse, e)
-    for r, renv in seq_env(f.node.body, {}):
+    for r, renv in seq_env(linear_body(f.node), {}):
         c = sym.canon(r.value, renv)
         ok = c in (sym.canon(sym.parse_expr(f"EncodedArray(np.array([a.data for a in {lst}]), {lst}[0].encoding)")),
                    sym.canon(sym.parse_expr(f"EncodedRaggedArray(EncodedArray(np.concatenate([a.data for a in {lst}]), {lst}[0].encoding), [len(a) for a in {lst}])")))
